@@ -141,6 +141,14 @@ def run_hexary(prune, prior, rng):
     for label, f, mk in hexary_calls(t):
         for kname, kmk in BAD_KINDS:
             record(f"{label}<{kname}>", (lambda f=f, kmk=kmk: f(kmk())), mk(), 1)
+    # an ill-typed VALUE under keys that would split existing nodes (they diverge from a stored key inside its leaf /
+    # extension, or extend it): the refusal must come before any node is rewritten
+    for k in sorted(m)[:3]:
+        for k2 in ((k[:-1] + bytes([k[-1] ^ 0x01])) if k else b"\x05", k + b"\x00", (bytes([k[0] ^ 0x10]) + k[1:]) if k else b"\x15"):
+            if k2 in m:
+                continue
+            for kname, kmk in BAD_KINDS[:2]:
+                record(f"set.value<{kname}>@{k2.hex()}", (lambda k2=k2, kmk=kmk: t.set(k2, kmk())), ("HSet", k2, "BAD"), 1)
     for nname, val, tag in BAD_NIBS:
         record(f"traverse<{nname}>", (lambda val=val: t.traverse(val)), ("HTraverse", nname), tag)
         try:
@@ -178,6 +186,34 @@ def run_hexary(prune, prior, rng):
         if bad is None and (out is None or out.tag != 18):
             bad = f"ref_count of a non-pruning trie: expected an Exception, got {out!r}"
     record("ctor(ref_count, prune=False)", lambda: HexaryTrie(backing, prune=False, ref_count={}), ("HNew", bytes(t.root_hash), False, True), 14)
+    # "all subsequent results are exactly what they would have been": after all these refusals the trie still accepts VALID
+    # writes (a refusal must not leave an operation-in-progress marker or anything else behind) - on the trie itself and on a
+    # batch trie that has just refused an ill-typed write
+    if bad is None:
+        try:
+            with t.squash_changes() as b:
+                for f in (lambda: b.set(b"\x01", "not bytes"), lambda: b.set(5, b"v"), lambda: b.delete(None)):
+                    out = guard(f)
+                    if out is None or out.tag != 1:
+                        bad = f"ill-typed write on a batch trie was not refused with ValidationError: {out!r}"
+                b.set(b"\x77\x01", b"later" * 8)
+                if b.get(b"\x77\x01") != b"later" * 8:
+                    bad = "a valid write after refused ones on a batch trie did not take effect"
+                raise C.Abort()
+        except C.Abort:
+            pass
+        except Exception as e:
+            bad = f"a VALID write on a batch trie after refused ill-typed writes raised {type(e).__name__}: {e}"
+    if bad is None:
+        before = snap_hex(t, backing)
+        try:
+            t.set(b"\x77\x02", b"later" * 8)
+            ok1 = t.get(b"\x77\x02") == b"later" * 8
+            t.delete(b"\x77\x02")
+            if not ok1 or snap_hex(t, backing)[0] != before[0]:
+                bad = "a valid set + delete after the refused calls does not bring the trie back to the same root"
+        except Exception as e:
+            bad = f"a VALID write after the refused calls raised {type(e).__name__}: {e}"
     return ops, outs, bad
 
 
